@@ -60,7 +60,7 @@ CHECKS = {
             "stub": ["asset directory (in-memory FS with per-path faults)", "time()/localtime clock (simulated, [1980, 2107], jumps between calls)", "rand()/srand() (simulated libc PRNG; library-side srand honoured)",
                      "DString starting capacity (H1)", "pool slab size (H2)", "stdio read chunk size"],
             "expect_probes": ["asset_missing_or_unopenable", "asset_empty_or_unreadable", "directory_null_with_images", "srand_between_uuid_draws_possible", "clock_before_2000",
-                              "open_fail", "read_error", "file_changed_between_opens", "directory_in_place_of_file", "empty_file", "clock_jump_inside_op", "other_api_family_identical", "asset_never_opened_by_library", "cli_packages"],
+                              "open_fail", "read_error", "file_changed_between_opens", "directory_in_place_of_file", "empty_file", "clock_jump_inside_op", "other_api_family_identical", "cli_packages"],
             "assumptions": ["Python zipfile/zlib and expat as the independent archive and XML readers (tools/pkgcheck.py)"],
             "sim_time": "each package is built at its own simulated instant in [1980-01-01, 2107-12-31], optionally jumping by up to +-100000 s between two time() calls of one operation"},
 }
